@@ -1391,6 +1391,132 @@ def gen_links3():
 GENERATORS["links3"] = gen_links3
 
 
+# ---------------------------------------------------------------------------------------------
+# CMap2::one_sew / one_unsew (dim2/sews/one.rs)
+# ---------------------------------------------------------------------------------------------
+
+SEW2_RS = os.environ.get("GEN_LEAN_SEW2_RS", "/repo/honeycomb-core/src/cmap/dim2/sews/one.rs")
+SEW2_OUT = os.path.join(os.path.dirname(os.path.dirname(os.path.abspath(__file__))), "lean", "Honeycomb", "Gen", "Sews2.lean")
+POLICY_CODE = {"Vertex": 0, "Edge": 1, "Face": 2, "Volume": 3}
+
+
+def sew_instrs(src, fname):
+    where = f"dim2/sews/one.rs {fname}"
+    sig = "".join(fn_sig(src, fname).split())
+    params = re.findall(r"(\w+):DartIdType", sig)
+    need(params in (["lhs_dart_id", "rhs_dart_id"], ["lhs_dart_id"]), f"{where}: parameters {params}")
+    base = {p: k for k, p in enumerate(params)}
+    base["NULL_DART_ID"] = 2
+
+    def block(body, names, nvars):
+        """returns (instructions, names, nvars) -- names bound inside an if/else arm stay local to it"""
+        out, pos = [], 0
+
+        def arg(tok):
+            need(tok in names, f"{where}: unknown name {tok!r}")
+            return names[tok]
+
+        def bind(name):
+            nonlocal nvars
+            need(name not in names, f"{where}: {name} bound twice")
+            names[name] = 20 + nvars
+            nvars += 1
+
+        rdb = r"(?:self\.betas\[\((\d),(\w+)\)\]\.read\(trans\)\?|self\.beta_transac::<(\d)>\(trans,(\w+)\)\?)"
+        vid = r"self\.vertex_id_transac\(trans,(\w+)\)\?"
+        while pos < len(body):
+            m = re.compile(r"let(\w+)=" + rdb + ";").match(body, pos)
+            if m:
+                i, a = (m.group(2), m.group(3)) if m.group(2) is not None else (m.group(4), m.group(5))
+                out.append((1, [int(i), arg(a)]))
+                bind(m.group(1))
+                pos = m.end()
+                continue
+            m = re.compile(r"let(\w+)=" + vid + ";").match(body, pos)
+            if m:
+                out.append((5, [arg(m.group(2))]))
+                bind(m.group(1))
+                pos = m.end()
+                continue
+            m = re.compile(r"let\((\w+),(\w+)\)=\(" + vid + "," + vid + r",?\);").match(body, pos)
+            if m:
+                a1, a2 = arg(m.group(3)), arg(m.group(4))
+                out += [(5, [a1]), (5, [a2])]
+                bind(m.group(1))
+                bind(m.group(2))
+                pos = m.end()
+                continue
+            m = re.compile(r"try_or_coerce!\(self\.betas\.(\w+_core)\(trans,(\w+)(?:,(\w+))?\),SewError\);").match(body, pos)
+            if m:
+                need(m.group(1) in CORE_CODE, f"{where}: unknown core {m.group(1)}")
+                two = CORE_CODE[m.group(1)] < 3
+                need((m.group(3) is not None) == two, f"{where}: arity of {m.group(1)}")
+                out.append((0, [CORE_CODE[m.group(1)], arg(m.group(2)), arg(m.group(3)) if two else 2]))
+                pos = m.end()
+                continue
+            m = re.compile(r"try_or_coerce!\(self\.vertices\.(merge|split)\(trans,(\w+),(\w+),(\w+)\),SewError\);").match(body, pos)
+            if m:
+                out.append((6, [0 if m.group(1) == "merge" else 1, arg(m.group(2)), arg(m.group(3)), arg(m.group(4))]))
+                pos = m.end()
+                continue
+            m = re.compile(r"try_or_coerce!\(self\.attributes\.(merge|split)_attributes\(trans,OrbitPolicy::(\w+),(\w+),(\w+),(\w+),?\),SewError\);").match(body, pos)
+            if m:
+                need(m.group(2) in POLICY_CODE, f"{where}: unknown policy {m.group(2)}")
+                out.append((7, [0 if m.group(1) == "merge" else 1, POLICY_CODE[m.group(2)], arg(m.group(3)), arg(m.group(4)), arg(m.group(5))]))
+                pos = m.end()
+                continue
+            m = re.compile(r"if(\w+)==NULL_DART_ID\{").match(body, pos)
+            if m:
+                th, end = block_after(body, m.end() - 1, where)
+                need(body.startswith("else{", end), f"{where}: `if` without `else`")
+                el, end2 = block_after(body, end + 4, where)
+                t_ins, _, nv1 = block(th, dict(names), nvars)
+                e_ins, _, nv2 = block(el, dict(names), nvars)
+                out.append((8, [arg(m.group(1)), len(t_ins), len(e_ins)]))
+                out += t_ins + e_ins
+                pos = end2
+                continue
+            m = re.compile(r"Ok\(\(\)\)$").match(body, pos)
+            if m:
+                pos = m.end()
+                continue
+            raise Shape(f"{where}: statement not recognised at {body[pos:pos + 90]!r}")
+        return out, names, nvars
+
+    body = "".join(fn_body(src, fname).split())
+    need(body.endswith("Ok(())"), f"{where}: does not end with Ok(())")
+    return block(body, dict(base), 0)[0]
+
+
+def gen_sews2():
+    src = strip_comments(open(SEW2_RS).read())
+    fns = [(f, sew_instrs(src, f)) for f in ("one_sew", "one_unsew")]
+    out = ["/-\n  GENERATED by /verif/tools/gen_lean.py from\n  /repo/honeycomb-core/src/cmap/dim2/sews/one.rs — DO NOT EDIT.\n"
+           "  Regenerated by tools/check.py before every build of a module that imports it.\n\n"
+           "  `CMap2::one_sew(lhs, rhs)` / `CMap2::one_unsew(lhs)` as (opcode, operands):\n"
+           "    (0, [f, a, b])         try_or_coerce!(self.betas.<f>(trans, a, b), SewError)   f as in Gen/Links3.lean\n"
+           "    (1, [i, a])            let x = self.betas[(i, a)].read(trans)?                  (binds the next variable)\n"
+           "    (5, [a])               let x = self.vertex_id_transac(trans, a)?                (binds; a tuple `let` is two of these)\n"
+           "    (6, [k, o, a, b])      try_or_coerce!(self.vertices.merge / split (k = 0 / 1)(trans, o, a, b), SewError)\n"
+           "    (7, [k, p, o, a, b])   try_or_coerce!(self.attributes.merge_ / split_attributes(trans, OrbitPolicy::p, o, a, b), SewError)\n"
+           "    (8, [a, n, m])         if a == NULL_DART_ID { the next n instructions } else { the m instructions after them }\n"
+           "  operands: 0 = lhs_dart_id, 1 = rhs_dart_id (parameter), 2 = NULL_DART_ID, 20 + j = the j-th variable bound on the path taken;\n"
+           "  p: 0 = Vertex.  Props/C01Gen2.lean interprets these lists and proves them EQUAL to `oneSew2` / `oneUnsew2` of Model/Ops2.lean.\n-/\n",
+           "namespace HC.Gen\n"]
+    for f, ins in fns:
+        camel = re.sub(r"_(\w)", lambda m: m.group(1).upper(), f) + "2"
+        out.append(f"/-- `CMap2::{f}` -/\ndef {camel} : List (Nat × List Nat) := [" +
+                   ", ".join(f"({op}, [{', '.join(map(str, a))}])" for op, a in ins) + "]\n")
+    out.append("end HC.Gen\n")
+    txt = "\n".join(out)
+    if not os.path.exists(SEW2_OUT) or open(SEW2_OUT).read() != txt:
+        open(SEW2_OUT, "w").write(txt)
+    return f"gen_lean: sews2 ok ({sum(len(i) for _, i in fns)} instructions)"
+
+
+GENERATORS["sews2"] = gen_sews2
+
+
 def run(names):
     """returns (ok, log)"""
     logs, ok = [], True
